@@ -11,6 +11,8 @@
 (*   A            a one-symbol sequence line (makes widths differ)           *)
 (*   AZ           a sequence line with a symbol outside the alphabet         *)
 (*   bl           a blank line                                               *)
+(*   sp           a line of blanks only ("  <TAB>")                          *)
+(*   Ab           "AC " - a sequence line with a trailing blank               *)
 (* Records(lines) is what a reader must yield for a valid stream; Class     *)
 (* says which of the statement's error classes a stream is in; the scanner  *)
 (* the five readers share is given as a machine (one action per branch)     *)
@@ -18,16 +20,16 @@
 (***************************************************************************)
 EXTENDS Alphabet, SequencesExt
 
-Kinds == {"ha", "hb", "ht", "hl", "hn", "hs", "AC", "ac", "N-", "GT", "A", "AZ", "bl"}
+Kinds == {"ha", "hb", "ht", "hl", "hn", "hs", "AC", "ac", "N-", "GT", "A", "AZ", "bl", "sp", "Ab"}
 IsHeader(k) == k \in {"ha", "hb", "ht", "hl", "hn", "hs"}
 HasId(k) == k \in {"ha", "hb", "ht", "hl"}
-IsSeq(k) == k \in {"AC", "ac", "N-", "GT", "A", "AZ"}
+IsSeq(k) == k \in {"AC", "ac", "N-", "GT", "A", "AZ", "sp", "Ab"}
 IdOf(k) == IF k = "ha" THEN "s1" ELSE IF k = "hb" THEN "s2" ELSE IF k = "ht" THEN "s3" ELSE IF k = "hl" THEN "s4" ELSE ""   \* first whitespace-delimited token
 DescOf(k) == IF k = "ha" THEN "s1" ELSE IF k = "hb" THEN "s2 some description" ELSE IF k = "ht" THEN "s3\ttabbed header"
              ELSE IF k = "hl" THEN " s4 after a blank" ELSE IF k = "hs" THEN " " ELSE ""                                     \* the whole header
 SymsOf(k) == CASE k = "AC" -> <<"A", "C">> [] k = "ac" -> <<"A", "C">> [] k = "N-" -> <<"N", "-">> [] k = "GT" -> <<"G", "T">>
                [] k = "A" -> <<"A">> [] k = "AZ" -> <<"A", "Z">> [] OTHER -> <<>>
-Bad(k) == k = "AZ"
+Bad(k) == k \in {"AZ", "sp", "Ab"}            \* sp: a line of blanks and a tab; Ab: "AC " - blanks are not in the alphabet (as coded: refused)
 
 (* ---- the definition: records of a stream, header by header --------------------------- *)
 HeaderIdx(ls) == SelectSeq([i \in 1..Len(ls) |-> i], LAMBDA i : IsHeader(ls[i]))
@@ -46,7 +48,7 @@ Class(ls) ==
   LET nb == NonBlank(ls)  recs == Records(nb) IN
   IF nb = <<>> THEN "NoRecords"
   ELSE IF ~IsHeader(nb[1]) THEN "NoLeadingHeader"
-  ELSE IF \E i \in 1..Len(ls) : ls[i] = "bl" \/ (IsHeader(ls[i]) /\ ~HasId(ls[i])) THEN "Other"       \* blank lines, headers without an ID:
+  ELSE IF \E i \in 1..Len(ls) : ls[i] \in {"bl", "sp", "Ab"} \/ (IsHeader(ls[i]) /\ ~HasId(ls[i])) THEN "Other"       \* blank lines, headers without an ID:
                                                                                                     \* read or refused, but never a crash
   ELSE IF \E k \in 1..Len(recs) : Len(recs[k].seq) = 0 THEN "Other"                                 \* records without sequence: unspecified
   ELSE IF \E i \in 1..Len(ls) : Bad(ls[i]) THEN "BadSymbol"
